@@ -68,6 +68,18 @@ namespace
     const unsigned fkind = d[5];
     const double tsurf = TSURF[d[6]];
     const bool force = d[6] != 0;
+    // Start from a non-initial process state: before the first world of this process is built, another world with
+    // different constants and the other coordinate system is built and queried (anything cached per process or
+    // shared between worlds would now carry that world's values). A single-case replay does the same.
+    static bool decoy_done = false;
+    if (!decoy_done)
+      {
+        decoy_done = true;
+        auto decoy = make_world(world(coord(true) + ",\"gravity model\":{\"model\":\"uniform\",\"magnitude\":5.5},\"potential mantle temperature\":1234,"
+                                      "\"thermal expansion coefficient\":7e-5,\"specific heat\":900,\"force surface temperature\":true,\"surface temperature\":111", {}), 1, "decoy");
+        (void)decoy->properties(wbgen::sph(10, 20, R_EARTH - 1e5), 1e5, REQS[1]);
+        (void)decoy->properties(wbgen::sph(10, 20, R_EARTH), 0, REQS[2]);
+      }
     std::vector<std::string> feats;
     const std::string fdesc = features_for(fkind, sph, feats);
     std::string members = coord(sph) + ",\"gravity model\":{\"model\":\"uniform\",\"magnitude\":" + num(g) + "}"
@@ -79,13 +91,18 @@ namespace
     const double s = sph ? 1.0 : 1e5;
     const std::vector<double> XS = {-3, -1, 1, 3}, YS = {-2, 2};
     bool any_bg = false;
-    for (double x : XS) for (double y : YS) for (double depth : DEPTHS) for (size_t ir = 0; ir < REQS.size(); ++ir)
+    std::vector<double> depths = DEPTHS;
+    depths.push_back(R_EARTH);     // spherical: the centre of the planet (cartesian point (0,0,0))
+    for (double x : XS) for (double y : YS) for (double depth : depths) for (size_t ir = 0; ir < REQS.size(); ++ir)
             {
-              const bool inside_possible = (fkind >= 2 && x > 0);
+              const bool centre = sph && depth == R_EARTH;      // natural coordinates (r=0, lon=0, lat=0)
+              if (depth == R_EARTH && !sph) continue;
+              if (centre && fkind == 2) continue;                // lon 0 is the edge of the half-covering plate: nothing claimed
+              const bool inside_possible = !centre && (fkind >= 2 && x > 0);
               const bool at_surface = (depth == 0);
               if (inside_possible && !(force && at_surface)) continue;   // nothing claimed there
               const Request &req = REQS[ir];
-              const P3 p = query_point(sph, x*s, y*s, depth);
+              const P3 p = centre ? P3{{0, 0, 0}} : query_point(sph, x*s, y*s, depth);
               const std::vector<double> out = w->properties(p, depth, req);
               ctx.eval();
               auto fail = [&](const std::string &sig, const std::string &what, size_t slot, double expect, double got)
@@ -115,10 +132,14 @@ namespace
                         }
                       else if (!inside_possible)
                         {
-                          const long double ref = static_cast<long double>(Tp) * expl(static_cast<long double>(alpha) * g * depth / c_p);
+                          const long double arg = static_cast<long double>(alpha) * g * depth / c_p;
+                          const long double ref = static_cast<long double>(Tp) * expl(arg);
                           ctx.count(c_bg);
                           any_bg = true;
-                          if (!(std::fabs(static_cast<double>(out[slot] - ref)) <= 1e-13 * std::fabs(static_cast<double>(ref))))
+                          const double refd = static_cast<double>(ref);
+                          // exp() of a large argument carries a relative error of |arg| ulp
+                          const double tol = (1e-13 + 4e-16 * std::fabs(static_cast<double>(arg))) * std::fabs(refd);
+                          if (std::isinf(refd) ? !(out[slot] == refd) : !(std::fabs(out[slot] - refd) <= tol))
                             fail("C03/background-temperature", "background adiabat mismatch", slot, static_cast<double>(ref), out[slot]);
                         }
                       slot += 1;
